@@ -67,8 +67,12 @@ def gen_case(r, index, tier):
         cents[1]["center"] = cents[0]["center"]             # coincident centres
     if cents and r.chance(0.3):
         cents[-1]["center"] = (r.choice([0, 2 * W]), r.randint(0, 2 * H))   # on the border
+    terms = [m for m in mods if m["kind"] == "terminal" and "center" in m]
+    if terms and cents and r.chance(0.4):
+        cents[0]["center"] = terms[0]["center"]             # a soft module placed on a (possibly fixed) terminal
     return {"engine": "c13", "die": die, "net": nl, "max_iter": r.weighted([(1, 1), (2, 1), (5, 2), (20, 3), (60, 2)]),
-            "kappa": r.choice([0.4, 0.7, 1.0, 1.5]), "hist_seed": r.below(1 << 30), "with_die_net": True}
+            "kappa": r.choice([0.4, 0.7, 1.0, 1.5]), "hist_seed": r.below(1 << 30), "with_die_net": True,
+            "squares": r.chance(0.3), "alias": r.chance(0.5)}
 
 
 def units(case):
@@ -126,8 +130,12 @@ def _prior_history(seed):
         try:
             net = N.Netlist(designs.netlist_tree(nl, die))
             d = D.Die(designs.die_tree(die), net)
-            if r.chance(0.5) and all(m.center is not None for m in net.modules):
-                FR.fruchterman_reingold_layout(d, 1.0, False, None, 3)
+            if all(m.center is not None for m in net.modules) and not any(m.is_terminal and m.center is None for m in net.modules):
+                if r.chance(0.5):
+                    FR.fruchterman_reingold_layout(d, 1.0, False, None, 3)
+                else:
+                    # a whole relocation of another design whose modules carry the same names (M0, M1, ...) and other areas
+                    FR.force_algorithm(d, False, None, 2)
         except (AssertionError, ZeroDivisionError):
             pass
     sm = SAT.SATManager()
@@ -142,6 +150,19 @@ def _build(case):
     tree = designs.netlist_tree(_norm(case["net"]), die)
     net = N.Netlist(tree)
     d = D.Die(designs.die_tree(die), net)
+    if case.get("squares"):
+        # what Allocation.initial_allocation does before the relocation stage is run on the same objects
+        net.create_squares()
+    if case.get("alias"):
+        # coincident centres given as ONE Point object shared by several modules (module.center is a plain attribute)
+        seen = {}
+        for m in net.modules:
+            if m.center is not None and not m.rectangles:
+                k = (m.center.x, m.center.y)
+                if k in seen:
+                    m.center = seen[k]
+                else:
+                    seen[k] = m.center
     return d
 
 
